@@ -2,7 +2,8 @@
 
 Engine D.  Enumerated: deterministic quantile samples {normal, gamma(3), t6; bimodal for the KDE only}
 x n in {300, 3000, 20000} x scale in {1e-6, 1, 1e6} x location in {0, +1e4 sd, -3e3 sd, 1e6 sd}
-x fractions {.1, .5, .68, .95}.  No random draws.
+x fractions {.1, .5, .68, .95}; the thorough tier adds families {logistic, gamma(9), exp-modified normal}, n = 1000,
+scales 1e-3 / 1e3, locations -1e6 sd / 100 sd and fractions from .02 to .99.  No random draws.
 
 Oracle: the estimator's OWN density, integrated by the harness on a 40 001-node grid laid out in coordinates centred on
 the data (so that nothing is lost to cancellation far from zero) and reaching 12 sd beyond the data; covariance: every
